@@ -134,7 +134,7 @@ impl CscMatrix<F> {
         forall|c1: int, c2: int| offset <= c1 < c2 < offset + blockdim ==> #[trigger] old(self).colptr@[c1] != #[trigger] old(self).colptr@[c2],
     ensures
         final(self).arrays_ok(), final(self).rowval@.len() == old(self).rowval@.len(), final(diagtoKKT)@.len() == old(diagtoKKT)@.len(),
-        final(self).colptr@.len() == old(self).colptr@.len(),
+        final(self).colptr@.len() == old(self).colptr@.len(), final(self).m == old(self).m, final(self).n == old(self).n,
         colptr_same_except(final(self).colptr@, old(self).colptr@, offset as int, offset + blockdim),
         // C11: column c receives one structural zero at (c, c); its slot is recorded in the map
         forall|c: int| offset <= c < offset + blockdim ==> {
@@ -195,6 +195,7 @@ it
         initrow + old(vtoKKT)@.len() <= usize::MAX,
     ensures
         final(self).arrays_ok(), final(self).rowval@.len() == old(self).rowval@.len(), final(vtoKKT)@.len() == old(vtoKKT)@.len(),
+        final(self).m == old(self).m, final(self).n == old(self).n,
         // C11: the column vector occupies rows initrow.. of column initcol, as structural zeros, slots recorded in order
         final(self).colptr@ == old(self).colptr@.update(initcol as int, (old(self).colptr@[initcol as int] + old(vtoKKT)@.len()) as usize),
         forall|i: int| 0 <= i < old(vtoKKT)@.len() ==> #[trigger] final(vtoKKT)@[i] == old(self).colptr@[initcol as int] + i,
@@ -229,7 +230,7 @@ it
         forall|c1: int, c2: int| initcol <= c1 < c2 < initcol + old(vtoKKT)@.len() ==> #[trigger] old(self).colptr@[c1] != #[trigger] old(self).colptr@[c2],
     ensures
         final(self).arrays_ok(), final(self).rowval@.len() == old(self).rowval@.len(), final(vtoKKT)@.len() == old(vtoKKT)@.len(),
-        final(self).colptr@.len() == old(self).colptr@.len(),
+        final(self).colptr@.len() == old(self).colptr@.len(), final(self).m == old(self).m, final(self).n == old(self).n,
         colptr_same_except(final(self).colptr@, old(self).colptr@, initcol as int, initcol + old(vtoKKT)@.len()),
         // C11: the row vector occupies row initrow of columns initcol.., as structural zeros
         forall|c: int| initcol <= c < initcol + old(vtoKKT)@.len() ==> {
@@ -548,7 +549,7 @@ impl CscMatrix<F> {
         forall|c: int| initcol <= c < initcol + blockcols ==> #[trigger] old(self).colptr@[c] < usize::MAX,
     ensures
         // C11: one diagonal entry is counted in each of the blockcols columns starting at initcol, nothing else changes
-        final(self).colptr@.len() == old(self).colptr@.len(),
+        final(self).colptr@.len() == old(self).colptr@.len(), final(self).m == old(self).m, final(self).n == old(self).n,
         forall|c: int| 0 <= c < old(self).colptr@.len() ==> #[trigger] final(self).colptr@[c]
             == old(self).colptr@[c] + (if initcol <= c < initcol + blockcols { 1int } else { 0int }),
         final(self).rowval@ == old(self).rowval@, final(self).nzval@ == old(self).nzval@,
@@ -571,7 +572,7 @@ impl CscMatrix<F> {
         forall|c: int| firstcol <= c < firstcol + n ==> #[trigger] old(self).colptr@[c] < usize::MAX,
     ensures
         // C11: a row vector of length n adds one entry to each of n consecutive columns from firstcol
-        final(self).colptr@.len() == old(self).colptr@.len(),
+        final(self).colptr@.len() == old(self).colptr@.len(), final(self).m == old(self).m, final(self).n == old(self).n,
         forall|c: int| 0 <= c < old(self).colptr@.len() ==> #[trigger] final(self).colptr@[c]
             == old(self).colptr@[c] + (if firstcol <= c < firstcol + n { 1int } else { 0int }),
         final(self).rowval@ == old(self).rowval@, final(self).nzval@ == old(self).nzval@,
@@ -1554,6 +1555,556 @@ it4
 //@before "return Err(MatrixConcatenationError::IncompatibleDimension);" #4
                 proof { assert(mats@[it4.index@ + 1]@[gp].n != mats@[0]@[gp].n); }
 //@end
+
+
+// ---- sparse expansion cones (second-order cones of dimension > 4, generalized power cones): auxiliary rows / columns ----
+//@struct file=src/solver/core/cones/socone.rs name=SecondOrderCone keep=dim,w rules=R2
+//@struct file=src/solver/core/cones/genpowcone.rs name=GenPowerCone keep=α,dim2 rules=R2
+//@struct file=src/solver/core/kktsolvers/direct/quasidef/datamaps.rs name=SOCExpansionMap
+//@struct file=src/solver/core/kktsolvers/direct/quasidef/datamaps.rs name=GenPowExpansionMap
+//@enum file=src/solver/core/kktsolvers/direct/quasidef/datamaps.rs name=SparseExpansionMap rules=R12
+impl SOCExpansionMap {
+//@fn file=src/solver/core/kktsolvers/direct/quasidef/datamaps.rs in="SparseExpansionMapTrait for SOCExpansionMap" name=pdim ret=r
+//@contract
+    ensures r == 2
+//@end
+}
+impl GenPowExpansionMap {
+//@fn file=src/solver/core/kktsolvers/direct/quasidef/datamaps.rs in="SparseExpansionMapTrait for GenPowExpansionMap" name=pdim ret=r
+//@contract
+    ensures r == 3
+//@end
+}
+// entries the expansion of a second-order cone adds to column c: Triu: the dense columns u, v (nvars entries each) sit in the
+// two auxiliary columns; Tril: they are rows, one entry in each of the cone's own columns; plus the 2 x 2 diagonal block
+pub open spec fn soc_cnt(shape: MatrixTriangle, row: int, col: int, nvars: int, c: int) -> int {
+    (if col <= c < col + 2 { 1int } else { 0int })
+    + (if shape == MatrixTriangle::Triu { if col <= c < col + 2 { nvars } else { 0int } } else { if row <= c < row + nvars { 2int } else { 0int } })
+}
+
+// cursor discipline shared by the sparse-cone fills: `need(c)` entries go into column c; the cursor K.colptr[c] leaves room for
+// them before the cursor of every later column and before the end of the arrays
+pub open spec fn sx_room(K: CscMatrix<F>, need: spec_fn(int) -> int) -> bool {
+    &&& forall|c: int| 0 <= c < K.colptr@.len() ==> need(c) >= 0 && #[trigger] K.colptr@[c] + need(c) <= K.rowval@.len()
+    &&& forall|a: int, b: int| 0 <= a < b < K.colptr@.len() ==> #[trigger] K.colptr@[a] + need(a) <= #[trigger] K.colptr@[b]
+}
+pub proof fn lemma_sx_room(K: CscMatrix<F>, need: spec_fn(int) -> int, a: int, b: int)
+    requires sx_room(K, need), 0 <= a < b < K.colptr@.len(),
+    ensures K.colptr@[a] + need(a) <= K.colptr@[b], K.colptr@[b] + need(b) <= K.rowval@.len(), need(a) >= 0, need(b) >= 0, K.colptr@[a] + need(a) <= K.rowval@.len(),
+{ }
+// slot s receives nothing
+pub open spec fn sx_free(K: CscMatrix<F>, need: spec_fn(int) -> int, s: int) -> bool {
+    forall|c: int| 0 <= c < K.colptr@.len() ==> !(#[trigger] K.colptr@[c] <= s < K.colptr@[c] + need(c))
+}
+pub proof fn lemma_sx_free(K: CscMatrix<F>, need: spec_fn(int) -> int, s: int)
+    requires sx_free(K, need, s),
+    ensures forall|c: int| 0 <= c < K.colptr@.len() ==> !(#[trigger] K.colptr@[c] <= s < K.colptr@[c] + need(c)),
+{ }
+// C11: where the expansion of a second-order cone sits.  Triu: the auxiliary columns col (v) and col + 1 (u) hold the rows
+// row .. row + n of the cone as structural zeros, followed by their diagonal entry.  Tril: the same as rows: column c of the cone
+// receives (col, c) and (col + 1, c); the auxiliary columns hold their diagonal entry only.  Every slot is recorded in the map.
+pub open spec fn soc_fill_post(K0: CscMatrix<F>, K: CscMatrix<F>, v: Seq<usize>, u: Seq<usize>, D: Seq<usize>, shape: MatrixTriangle, row: int, col: int, n: int) -> bool {
+    let need = |c: int| soc_cnt(shape, row, col, n, c);
+    &&& u.len() == n && v.len() == n && D.len() == 2
+    &&& forall|c: int| 0 <= c < K0.colptr@.len() ==> #[trigger] K.colptr@[c] == K0.colptr@[c] + soc_cnt(shape, row, col, n, c)
+    &&& shape == MatrixTriangle::Triu ==> {
+        let c0 = K0.colptr@[col] as int; let c1 = K0.colptr@[col + 1] as int;
+        &&& forall|i: int| 0 <= i < n ==> #[trigger] v[i] == c0 + i && K.rowval@[c0 + i] == row + i && K.nzval@[c0 + i] == f_zero()
+        &&& forall|i: int| 0 <= i < n ==> #[trigger] u[i] == c1 + i && K.rowval@[c1 + i] == row + i && K.nzval@[c1 + i] == f_zero()
+        &&& D[0] == c0 + n && K.rowval@[c0 + n] == col && K.nzval@[c0 + n] == f_zero()
+        &&& D[1] == c1 + n && K.rowval@[c1 + n] == col + 1 && K.nzval@[c1 + n] == f_zero()
+    }
+    &&& shape == MatrixTriangle::Tril ==> {
+        &&& forall|i: int| 0 <= i < n ==> #[trigger] v[i] == K0.colptr@[row + i] && K.rowval@[K0.colptr@[row + i] as int] == col && K.nzval@[K0.colptr@[row + i] as int] == f_zero()
+        &&& forall|i: int| 0 <= i < n ==> #[trigger] u[i] == K0.colptr@[row + i] + 1 && K.rowval@[K0.colptr@[row + i] + 1] == col + 1 && K.nzval@[K0.colptr@[row + i] + 1] == f_zero()
+        &&& D[0] == K0.colptr@[col] && K.rowval@[K0.colptr@[col] as int] == col && K.nzval@[K0.colptr@[col] as int] == f_zero()
+        &&& D[1] == K0.colptr@[col + 1] && K.rowval@[K0.colptr@[col + 1] as int] == col + 1 && K.nzval@[K0.colptr@[col + 1] as int] == f_zero()
+    }
+    // nothing else is written
+    &&& forall|s: int| 0 <= s < K0.rowval@.len() && #[trigger] sx_free(K0, need, s) ==> K.rowval@[s] == K0.rowval@[s] && K.nzval@[s] == K0.nzval@[s]
+}
+// the effects of the three fill helpers, as predicates over the state before / after (restating their contracts)
+pub open spec fn colvec_filled(Ka: CscMatrix<F>, Kb: CscMatrix<F>, v: Seq<usize>, initrow: int, initcol: int) -> bool {
+    let d = Ka.colptr@[initcol] as int; let n = v.len() as int;
+    &&& Kb.arrays_ok() && Kb.rowval@.len() == Ka.rowval@.len() && Kb.m == Ka.m && Kb.n == Ka.n
+    &&& Kb.colptr@ == Ka.colptr@.update(initcol, (d + n) as usize)
+    &&& forall|i: int| 0 <= i < n ==> #[trigger] v[i] == d + i
+    &&& forall|i: int| 0 <= i < n ==> #[trigger] Kb.rowval@[d + i] == initrow + i
+    &&& forall|i: int| 0 <= i < n ==> #[trigger] Kb.nzval@[d + i] == f_zero()
+    &&& forall|s: int| 0 <= s < Ka.rowval@.len() && !(d <= s < d + n) ==> #[trigger] Kb.rowval@[s] == Ka.rowval@[s]
+    &&& forall|s: int| 0 <= s < Ka.rowval@.len() && !(d <= s < d + n) ==> #[trigger] Kb.nzval@[s] == Ka.nzval@[s]
+}
+pub open spec fn rowvec_filled(Ka: CscMatrix<F>, Kb: CscMatrix<F>, v: Seq<usize>, initrow: int, initcol: int) -> bool {
+    let n = v.len() as int;
+    &&& Kb.arrays_ok() && Kb.rowval@.len() == Ka.rowval@.len() && Kb.colptr@.len() == Ka.colptr@.len() && Kb.m == Ka.m && Kb.n == Ka.n
+    &&& colptr_same_except(Kb.colptr@, Ka.colptr@, initcol, initcol + n)
+    &&& forall|c: int| initcol <= c < initcol + n ==> {
+            let dest = #[trigger] Ka.colptr@[c] as int;
+            v[c - initcol] == dest && Kb.colptr@[c] == dest + 1 && Kb.rowval@[dest] == initrow && Kb.nzval@[dest] == f_zero() }
+    &&& forall|s: int| 0 <= s < Ka.rowval@.len() && #[trigger] untouched(Ka.colptr@, initcol, initcol + n, s) ==> Kb.rowval@[s] == Ka.rowval@[s] && Kb.nzval@[s] == Ka.nzval@[s]
+}
+pub open spec fn diag_filled(Ka: CscMatrix<F>, Kb: CscMatrix<F>, D: Seq<usize>, offset: int, blockdim: int) -> bool {
+    &&& Kb.arrays_ok() && Kb.rowval@.len() == Ka.rowval@.len() && Kb.colptr@.len() == Ka.colptr@.len() && Kb.m == Ka.m && Kb.n == Ka.n
+    &&& colptr_same_except(Kb.colptr@, Ka.colptr@, offset, offset + blockdim)
+    &&& forall|c: int| offset <= c < offset + blockdim ==> {
+            let dest = #[trigger] Ka.colptr@[c] as int;
+            D[c - offset] == dest && Kb.colptr@[c] == dest + 1 && Kb.rowval@[dest] == c && Kb.nzval@[dest] == f_zero() }
+    &&& forall|s: int| 0 <= s < Ka.rowval@.len() && #[trigger] untouched(Ka.colptr@, offset, offset + blockdim, s) ==> Kb.rowval@[s] == Ka.rowval@[s] && Kb.nzval@[s] == Ka.nzval@[s]
+}
+#[verifier::spinoff_prover]
+pub proof fn lemma_soc_fill_triu(K0: CscMatrix<F>, K1: CscMatrix<F>, K2: CscMatrix<F>, K: CscMatrix<F>, v: Seq<usize>, u: Seq<usize>, D: Seq<usize>, row: int, col: int, n: int)
+    requires
+        0 <= col, col + 2 <= K0.colptr@.len(), 0 <= row, n >= 0, v.len() == n, u.len() == n, D.len() == 2, K0.arrays_ok(), K0.rowval@.len() <= usize::MAX,
+        sx_room(K0, |c: int| soc_cnt(MatrixTriangle::Triu, row, col, n, c)),
+        colvec_filled(K0, K1, v, row, col), colvec_filled(K1, K2, u, row, col + 1), diag_filled(K2, K, D, col, 2),
+    ensures soc_fill_post(K0, K, v, u, D, MatrixTriangle::Triu, row, col, n),
+{
+    let need = |c: int| soc_cnt(MatrixTriangle::Triu, row, col, n, c);
+    let c0 = K0.colptr@[col] as int; let c1 = K0.colptr@[col + 1] as int;
+    assert(need(col) == n + 1 && need(col + 1) == n + 1);
+    lemma_sx_room(K0, need, col, col + 1);
+    assert(K1.colptr@[col + 1] == c1);
+    assert(K2.colptr@[col] == c0 + n && K2.colptr@[col + 1] == c1 + n);
+    assert forall|i: int| 0 <= i < n implies #[trigger] v[i] == c0 + i && K.rowval@[c0 + i] == row + i && K.nzval@[c0 + i] == f_zero() by {
+        assert(K1.rowval@[c0 + i] == row + i && K1.nzval@[c0 + i] == f_zero());
+        assert(K2.rowval@[c0 + i] == K1.rowval@[c0 + i] && K2.nzval@[c0 + i] == K1.nzval@[c0 + i]);
+        assert(untouched(K2.colptr@, col, col + 2, c0 + i));
+    }
+    assert forall|i: int| 0 <= i < n implies #[trigger] u[i] == c1 + i && K.rowval@[c1 + i] == row + i && K.nzval@[c1 + i] == f_zero() by {
+        assert(K2.rowval@[c1 + i] == row + i && K2.nzval@[c1 + i] == f_zero());
+        assert(untouched(K2.colptr@, col, col + 2, c1 + i));
+    }
+    assert forall|c: int| 0 <= c < K0.colptr@.len() implies #[trigger] K.colptr@[c] == K0.colptr@[c] + soc_cnt(MatrixTriangle::Triu, row, col, n, c) by { }
+    assert forall|s: int| 0 <= s < K0.rowval@.len() && #[trigger] sx_free(K0, need, s) implies K.rowval@[s] == K0.rowval@[s] && K.nzval@[s] == K0.nzval@[s] by {
+        lemma_sx_free(K0, need, s);
+        assert(!(K0.colptr@[col] <= s < K0.colptr@[col] + need(col)));
+        assert(!(K0.colptr@[col + 1] <= s < K0.colptr@[col + 1] + need(col + 1)));
+        assert(untouched(K2.colptr@, col, col + 2, s));
+        assert(K1.rowval@[s] == K0.rowval@[s] && K2.rowval@[s] == K1.rowval@[s]);
+        assert(K1.nzval@[s] == K0.nzval@[s] && K2.nzval@[s] == K1.nzval@[s]);
+    }
+    assert(D[0] == c0 + n && D[1] == c1 + n);
+}
+#[verifier::spinoff_prover]
+pub proof fn lemma_soc_fill_tril(K0: CscMatrix<F>, K1: CscMatrix<F>, K2: CscMatrix<F>, K: CscMatrix<F>, v: Seq<usize>, u: Seq<usize>, D: Seq<usize>, row: int, col: int, n: int)
+    requires
+        0 <= col, col + 2 <= K0.colptr@.len(), 0 <= row, n >= 0, row + n <= col, v.len() == n, u.len() == n, D.len() == 2, K0.arrays_ok(),
+        sx_room(K0, |c: int| soc_cnt(MatrixTriangle::Tril, row, col, n, c)),
+        rowvec_filled(K0, K1, v, col, row), rowvec_filled(K1, K2, u, col + 1, row), diag_filled(K2, K, D, col, 2),
+    ensures soc_fill_post(K0, K, v, u, D, MatrixTriangle::Tril, row, col, n),
+{
+    let need = |c: int| soc_cnt(MatrixTriangle::Tril, row, col, n, c);
+    assert(need(col) == 1 && need(col + 1) == 1);
+    lemma_sx_room(K0, need, col, col + 1);
+    assert forall|c: int| row <= c < row + n implies need(c) == 2 && #[trigger] K1.colptr@[c] == K0.colptr@[c] + 1 && K2.colptr@[c] == K0.colptr@[c] + 2 by { }
+    assert(K2.colptr@[col] == K0.colptr@[col] && K2.colptr@[col + 1] == K0.colptr@[col + 1]);
+    assert forall|i: int| 0 <= i < n implies #[trigger] v[i] == K0.colptr@[row + i] && K.rowval@[K0.colptr@[row + i] as int] == col && K.nzval@[K0.colptr@[row + i] as int] == f_zero() by {
+        let sl = K0.colptr@[row + i] as int;
+        assert(need(row + i) == 2);
+        lemma_sx_room(K0, need, row + i, col); lemma_sx_room(K0, need, row + i, col + 1);
+        assert(untouched(K1.colptr@, row, row + n, sl)) by {
+            assert forall|c: int| row <= c < row + n implies #[trigger] K1.colptr@[c] != sl by {
+                assert(K1.colptr@[c] == K0.colptr@[c] + 1); assert(need(c) == 2);
+                if c < row + i { lemma_sx_room(K0, need, c, row + i); } else if c > row + i { lemma_sx_room(K0, need, row + i, c); }
+            }
+        }
+        assert(K1.rowval@[sl] == col && K1.nzval@[sl] == f_zero());
+        assert(untouched(K2.colptr@, col, col + 2, sl));
+    }
+    assert forall|i: int| 0 <= i < n implies #[trigger] u[i] == K0.colptr@[row + i] + 1 && K.rowval@[K0.colptr@[row + i] + 1] == col + 1 && K.nzval@[K0.colptr@[row + i] + 1] == f_zero() by {
+        assert(need(row + i) == 2);
+        lemma_sx_room(K0, need, row + i, col); lemma_sx_room(K0, need, row + i, col + 1);
+        assert(K1.colptr@[row + i] == K0.colptr@[row + i] + 1);
+        assert(untouched(K2.colptr@, col, col + 2, K0.colptr@[row + i] + 1));
+    }
+    assert forall|c: int| 0 <= c < K0.colptr@.len() implies #[trigger] K.colptr@[c] == K0.colptr@[c] + soc_cnt(MatrixTriangle::Tril, row, col, n, c) by {
+        if row <= c < row + n { assert(K2.colptr@[c] == K0.colptr@[c] + 2); }
+    }
+    assert forall|s: int| 0 <= s < K0.rowval@.len() && #[trigger] sx_free(K0, need, s) implies K.rowval@[s] == K0.rowval@[s] && K.nzval@[s] == K0.nzval@[s] by {
+        lemma_sx_free(K0, need, s);
+        assert(!(K0.colptr@[col] <= s < K0.colptr@[col] + need(col)));
+        assert(!(K0.colptr@[col + 1] <= s < K0.colptr@[col + 1] + need(col + 1)));
+        assert(untouched(K2.colptr@, col, col + 2, s));
+        assert(untouched(K0.colptr@, row, row + n, s)) by {
+            assert forall|c: int| row <= c < row + n implies #[trigger] K0.colptr@[c] != s by { assert(need(c) == 2); }
+        }
+        assert(untouched(K1.colptr@, row, row + n, s)) by {
+            assert forall|c: int| row <= c < row + n implies #[trigger] K1.colptr@[c] != s by { assert(need(c) == 2); assert(K1.colptr@[c] == K0.colptr@[c] + 1); assert(!(K0.colptr@[c] <= s < K0.colptr@[c] + need(c))); }
+        }
+    }
+}
+impl SecondOrderCone<F> {
+    // ASSUMED (macro-generated accessor impl_map_recover!: returns the payload of the matching variant, panics otherwise)
+    #[verifier::external_body]
+    pub fn recover_map<'a>(&self, map: &'a SparseExpansionMap) -> (r: &'a SOCExpansionMap)
+        ensures map matches SparseExpansionMap::SOCExpansionMap(m) && *r == m,
+    { unimplemented!() }
+//@fn file=src/solver/core/cones/socone.rs in="Cone<T> for SecondOrderCone<T>" name=numel rules=R1 ret=r
+//@contract
+    ensures r == self.dim
+//@end
+//@fn file=src/solver/core/kktsolvers/direct/quasidef/datamaps.rs in="SparseExpansionConeTrait<T> for &'_ SecondOrderCone<T>" name=csc_colcount_sparsecone rules=R1
+//@contract
+    requires
+        col + 2 <= old(K).colptr@.len(), shape == MatrixTriangle::Tril ==> row + self.dim <= old(K).colptr@.len(),
+        forall|c: int| 0 <= c < old(K).colptr@.len() ==> #[trigger] old(K).colptr@[c] + soc_cnt(shape, row as int, col as int, self.dim as int, c) <= usize::MAX,
+    ensures
+        // C11: column counts of the auxiliary rows / columns of the sparse expansion, in either triangle
+        final(K).colptr@.len() == old(K).colptr@.len(),
+        forall|c: int| 0 <= c < old(K).colptr@.len() ==> #[trigger] final(K).colptr@[c] == old(K).colptr@[c] + soc_cnt(shape, row as int, col as int, self.dim as int, c),
+        final(K).rowval@ == old(K).rowval@, final(K).nzval@ == old(K).nzval@, final(K).m == old(K).m, final(K).n == old(K).n,
+//@pre
+        proof { assert(K.colptr@.len() == K.colptr.len());
+                assert(old(K).colptr@[col as int] + soc_cnt(shape, row as int, col as int, self.dim as int, col as int) <= usize::MAX);
+                assert(old(K).colptr@[col + 1] + soc_cnt(shape, row as int, col as int, self.dim as int, col + 1) <= usize::MAX);
+                assert forall|c: int| row <= c < row + self.dim && shape == MatrixTriangle::Tril implies #[trigger] old(K).colptr@[c] + 2 <= usize::MAX by {
+                    assert(old(K).colptr@[c] + soc_cnt(shape, row as int, col as int, self.dim as int, c) <= usize::MAX); } }
+//@end
+    // ASSUMED (macro-generated accessor impl_map_recover!): a mutable borrow of the payload of the matching variant
+    #[verifier::external_body]
+    pub fn recover_map_mut<'a>(&self, map: &'a mut SparseExpansionMap) -> (r: &'a mut SOCExpansionMap)
+        ensures
+            *old(map) matches SparseExpansionMap::SOCExpansionMap(m) && *r == m,
+            *final(map) matches SparseExpansionMap::SOCExpansionMap(m) && *final(r) == m,
+    { unimplemented!() }
+//@fn file=src/solver/core/kktsolvers/direct/quasidef/datamaps.rs in="SparseExpansionConeTrait<T> for &'_ SecondOrderCone<T>" name=csc_fill_sparsecone rules=R1
+//@contract
+    requires
+        *old(map) matches SparseExpansionMap::SOCExpansionMap(m) ==> m.u@.len() == self.dim && m.v@.len() == self.dim,
+        old(K).arrays_ok(), col + 2 <= old(K).colptr@.len(), row + self.dim <= usize::MAX,
+        shape == MatrixTriangle::Tril ==> row + self.dim <= col,
+        // cursor discipline (what the counting pass hands over): every column has room for the entries it receives
+        sx_room(*old(K), |c: int| soc_cnt(shape, row as int, col as int, self.dim as int, c)),
+    ensures
+        final(K).arrays_ok(), final(K).rowval@.len() == old(K).rowval@.len(), final(K).colptr@.len() == old(K).colptr@.len(),
+        final(K).m == old(K).m, final(K).n == old(K).n,
+        *final(map) matches SparseExpansionMap::SOCExpansionMap(m) && soc_fill_post(*old(K), *final(K), m.v@, m.u@, m.D@, shape, row as int, col as int, self.dim as int),
+//@pre
+        let ghost K0 = *K;
+        let ghost n = self.dim as int;
+        let ghost need = |c: int| soc_cnt(shape, row as int, col as int, self.dim as int, c);
+        let ghost mut K1 = *K;
+        let ghost mut K2 = *K;
+        let ghost mut K3 = *K;
+        proof {
+            assert(K.colptr@.len() == K.colptr.len()); assert(K.rowval@.len() == K.rowval.len());
+            assert(need(col as int) >= 1 && need(col + 1) >= 1);
+            lemma_sx_room(K0, need, col as int, col + 1);
+        }
+//@after "K.fill_colvec(&mut map.v, row, col);"
+                proof { K1 = *K; assert(colvec_filled(K0, K1, map.v@, row as int, col as int)); }
+//@after "K.fill_colvec(&mut map.u, row, col + 1);"
+                proof { K2 = *K; assert(colvec_filled(K1, K2, map.u@, row as int, col + 1)); }
+//@before "K.fill_rowvec(&mut map.v, col, row);"
+                proof {
+                    assert forall|c: int| row <= c < row + n implies #[trigger] K0.colptr@[c] + 2 <= K0.rowval@.len() by { assert(need(c) == 2); }
+                    assert forall|c1: int, c2: int| row <= c1 < c2 < row + n implies #[trigger] K0.colptr@[c1] + 2 <= #[trigger] K0.colptr@[c2] by { assert(need(c1) == 2); lemma_sx_room(K0, need, c1, c2); }
+                }
+//@after "K.fill_rowvec(&mut map.v, col, row);"
+                proof {
+                    K1 = *K; assert(rowvec_filled(K0, K1, map.v@, col as int, row as int));
+                    assert forall|c: int| row <= c < row + n implies #[trigger] K1.colptr@[c] == K0.colptr@[c] + 1 by { }
+                }
+//@after "K.fill_rowvec(&mut map.u, col + 1, row);"
+                proof { K2 = *K; assert(rowvec_filled(K1, K2, map.u@, col + 1, row as int)); }
+//@before "let pdim = map.pdim();"
+        proof {
+            K3 = *K;
+            if shape == MatrixTriangle::Tril {
+                assert(K3.colptr@[col as int] == K0.colptr@[col as int] && K3.colptr@[col + 1] == K0.colptr@[col + 1]);
+            } else {
+                assert(K3.colptr@[col as int] == K0.colptr@[col as int] + n && K3.colptr@[col + 1] == K0.colptr@[col + 1] + n);
+            }
+        }
+//@post
+        proof {
+            let m = map->SOCExpansionMap_0;
+            assert(diag_filled(K3, *K, m.D@, col as int, 2));
+            if shape == MatrixTriangle::Triu { lemma_soc_fill_triu(K0, K1, K2, *K, m.v@, m.u@, m.D@, row as int, col as int, n); }
+            else { lemma_soc_fill_tril(K0, K1, K2, *K, m.v@, m.u@, m.D@, row as int, col as int, n); }
+        }
+//@end
+}
+
+
+// entries the expansion of a generalized power cone adds to column c (q: the first d1 coordinates, r: the last d2, p: all of them)
+pub open spec fn gp_cnt(shape: MatrixTriangle, row: int, col: int, d1: int, d2: int, c: int) -> int {
+    (if col <= c < col + 3 { 1int } else { 0int })
+    + (if shape == MatrixTriangle::Triu { (if c == col { d1 } else { 0int }) + (if c == col + 1 { d2 } else { 0int }) + (if c == col + 2 { d1 + d2 } else { 0int }) }
+       else { (if row <= c < row + d1 { 1int } else { 0int }) + (if row + d1 <= c < row + d1 + d2 { 1int } else { 0int }) + (if row <= c < row + d1 + d2 { 1int } else { 0int }) })
+}
+// C11: where the expansion of a generalized power cone sits.  Triu: auxiliary column col holds q (rows row .. row + d1), col + 1
+// holds r (rows row + d1 .. row + d1 + d2), col + 2 holds p (rows row .. row + d1 + d2), each followed by its diagonal entry.
+// Tril: the same as rows col, col + 1, col + 2 spread over the cone's own columns (q or r first, then p).
+pub open spec fn gp_fill_post(K0: CscMatrix<F>, K: CscMatrix<F>, q: Seq<usize>, r: Seq<usize>, p: Seq<usize>, D: Seq<usize>, shape: MatrixTriangle, row: int, col: int, d1: int, d2: int) -> bool {
+    let need = |c: int| gp_cnt(shape, row, col, d1, d2, c);
+    &&& q.len() == d1 && r.len() == d2 && p.len() == d1 + d2 && D.len() == 3
+    &&& forall|c: int| 0 <= c < K0.colptr@.len() ==> #[trigger] K.colptr@[c] == K0.colptr@[c] + gp_cnt(shape, row, col, d1, d2, c)
+    &&& shape == MatrixTriangle::Triu ==> {
+        let c0 = K0.colptr@[col] as int; let c1 = K0.colptr@[col + 1] as int; let c2 = K0.colptr@[col + 2] as int;
+        &&& forall|i: int| 0 <= i < d1 ==> #[trigger] q[i] == c0 + i && K.rowval@[c0 + i] == row + i && K.nzval@[c0 + i] == f_zero()
+        &&& forall|i: int| 0 <= i < d2 ==> #[trigger] r[i] == c1 + i && K.rowval@[c1 + i] == row + d1 + i && K.nzval@[c1 + i] == f_zero()
+        &&& forall|i: int| 0 <= i < d1 + d2 ==> #[trigger] p[i] == c2 + i && K.rowval@[c2 + i] == row + i && K.nzval@[c2 + i] == f_zero()
+        &&& D[0] == c0 + d1 && K.rowval@[c0 + d1] == col && K.nzval@[c0 + d1] == f_zero()
+        &&& D[1] == c1 + d2 && K.rowval@[c1 + d2] == col + 1 && K.nzval@[c1 + d2] == f_zero()
+        &&& D[2] == c2 + d1 + d2 && K.rowval@[c2 + d1 + d2] == col + 2 && K.nzval@[c2 + d1 + d2] == f_zero()
+    }
+    &&& shape == MatrixTriangle::Tril ==> {
+        &&& forall|i: int| 0 <= i < d1 ==> #[trigger] q[i] == K0.colptr@[row + i] && K.rowval@[K0.colptr@[row + i] as int] == col && K.nzval@[K0.colptr@[row + i] as int] == f_zero()
+        &&& forall|i: int| 0 <= i < d2 ==> #[trigger] r[i] == K0.colptr@[row + d1 + i] && K.rowval@[K0.colptr@[row + d1 + i] as int] == col + 1 && K.nzval@[K0.colptr@[row + d1 + i] as int] == f_zero()
+        &&& forall|i: int| 0 <= i < d1 + d2 ==> #[trigger] p[i] == K0.colptr@[row + i] + 1 && K.rowval@[K0.colptr@[row + i] + 1] == col + 2 && K.nzval@[K0.colptr@[row + i] + 1] == f_zero()
+        &&& forall|k: int| 0 <= k < 3 ==> #[trigger] D[k] == K0.colptr@[col + k] && K.rowval@[K0.colptr@[col + k] as int] == col + k && K.nzval@[K0.colptr@[col + k] as int] == f_zero()
+    }
+    // nothing else is written
+    &&& forall|s: int| 0 <= s < K0.rowval@.len() && #[trigger] sx_free(K0, need, s) ==> K.rowval@[s] == K0.rowval@[s] && K.nzval@[s] == K0.nzval@[s]
+}
+#[verifier::spinoff_prover]
+pub proof fn lemma_gp_fill_triu(K0: CscMatrix<F>, K1: CscMatrix<F>, K2: CscMatrix<F>, K3: CscMatrix<F>, K: CscMatrix<F>, q: Seq<usize>, r: Seq<usize>, p: Seq<usize>, D: Seq<usize>, row: int, col: int, d1: int, d2: int)
+    requires
+        0 <= col, col + 3 <= K0.colptr@.len(), 0 <= row, d1 >= 0, d2 >= 0, q.len() == d1, r.len() == d2, p.len() == d1 + d2, D.len() == 3, K0.arrays_ok(), K0.rowval@.len() <= usize::MAX,
+        sx_room(K0, |c: int| gp_cnt(MatrixTriangle::Triu, row, col, d1, d2, c)),
+        colvec_filled(K0, K1, q, row, col), colvec_filled(K1, K2, r, row + d1, col + 1), colvec_filled(K2, K3, p, row, col + 2), diag_filled(K3, K, D, col, 3),
+    ensures gp_fill_post(K0, K, q, r, p, D, MatrixTriangle::Triu, row, col, d1, d2),
+{
+    let need = |c: int| gp_cnt(MatrixTriangle::Triu, row, col, d1, d2, c);
+    let c0 = K0.colptr@[col] as int; let c1 = K0.colptr@[col + 1] as int; let c2 = K0.colptr@[col + 2] as int;
+    assert(need(col) == d1 + 1 && need(col + 1) == d2 + 1 && need(col + 2) == d1 + d2 + 1);
+    lemma_sx_room(K0, need, col, col + 1); lemma_sx_room(K0, need, col + 1, col + 2); lemma_sx_room(K0, need, col, col + 2);
+    assert(K1.colptr@[col + 1] == c1 && K1.colptr@[col + 2] == c2 && K2.colptr@[col + 2] == c2);
+    assert(K3.colptr@[col] == c0 + d1 && K3.colptr@[col + 1] == c1 + d2 && K3.colptr@[col + 2] == c2 + d1 + d2);
+    assert forall|i: int| 0 <= i < d1 implies #[trigger] q[i] == c0 + i && K.rowval@[c0 + i] == row + i && K.nzval@[c0 + i] == f_zero() by {
+        assert(K1.rowval@[c0 + i] == row + i && K1.nzval@[c0 + i] == f_zero());
+        assert(K2.rowval@[c0 + i] == K1.rowval@[c0 + i] && K2.nzval@[c0 + i] == K1.nzval@[c0 + i]);
+        assert(K3.rowval@[c0 + i] == K2.rowval@[c0 + i] && K3.nzval@[c0 + i] == K2.nzval@[c0 + i]);
+        assert(untouched(K3.colptr@, col, col + 3, c0 + i));
+    }
+    assert forall|i: int| 0 <= i < d2 implies #[trigger] r[i] == c1 + i && K.rowval@[c1 + i] == row + d1 + i && K.nzval@[c1 + i] == f_zero() by {
+        assert(K2.rowval@[c1 + i] == row + d1 + i && K2.nzval@[c1 + i] == f_zero());
+        assert(K3.rowval@[c1 + i] == K2.rowval@[c1 + i] && K3.nzval@[c1 + i] == K2.nzval@[c1 + i]);
+        assert(untouched(K3.colptr@, col, col + 3, c1 + i));
+    }
+    assert forall|i: int| 0 <= i < d1 + d2 implies #[trigger] p[i] == c2 + i && K.rowval@[c2 + i] == row + i && K.nzval@[c2 + i] == f_zero() by {
+        assert(K3.rowval@[c2 + i] == row + i && K3.nzval@[c2 + i] == f_zero());
+        assert(untouched(K3.colptr@, col, col + 3, c2 + i));
+    }
+    assert forall|c: int| 0 <= c < K0.colptr@.len() implies #[trigger] K.colptr@[c] == K0.colptr@[c] + gp_cnt(MatrixTriangle::Triu, row, col, d1, d2, c) by { }
+    assert forall|s: int| 0 <= s < K0.rowval@.len() && #[trigger] sx_free(K0, need, s) implies K.rowval@[s] == K0.rowval@[s] && K.nzval@[s] == K0.nzval@[s] by {
+        lemma_sx_free(K0, need, s);
+        assert(!(K0.colptr@[col] <= s < K0.colptr@[col] + need(col)));
+        assert(!(K0.colptr@[col + 1] <= s < K0.colptr@[col + 1] + need(col + 1)));
+        assert(!(K0.colptr@[col + 2] <= s < K0.colptr@[col + 2] + need(col + 2)));
+        assert(untouched(K3.colptr@, col, col + 3, s));
+        assert(K1.rowval@[s] == K0.rowval@[s] && K2.rowval@[s] == K1.rowval@[s] && K3.rowval@[s] == K2.rowval@[s]);
+        assert(K1.nzval@[s] == K0.nzval@[s] && K2.nzval@[s] == K1.nzval@[s] && K3.nzval@[s] == K2.nzval@[s]);
+    }
+    assert(D[0] == c0 + d1 && D[1] == c1 + d2 && D[2] == c2 + d1 + d2);
+}
+#[verifier::spinoff_prover]
+pub proof fn lemma_gp_fill_tril(K0: CscMatrix<F>, K1: CscMatrix<F>, K2: CscMatrix<F>, K3: CscMatrix<F>, K: CscMatrix<F>, q: Seq<usize>, r: Seq<usize>, p: Seq<usize>, D: Seq<usize>, row: int, col: int, d1: int, d2: int)
+    requires
+        0 <= col, col + 3 <= K0.colptr@.len(), 0 <= row, d1 >= 0, d2 >= 0, row + d1 + d2 <= col, q.len() == d1, r.len() == d2, p.len() == d1 + d2, D.len() == 3, K0.arrays_ok(),
+        sx_room(K0, |c: int| gp_cnt(MatrixTriangle::Tril, row, col, d1, d2, c)),
+        rowvec_filled(K0, K1, q, col, row), rowvec_filled(K1, K2, r, col + 1, row + d1), rowvec_filled(K2, K3, p, col + 2, row), diag_filled(K3, K, D, col, 3),
+    ensures gp_fill_post(K0, K, q, r, p, D, MatrixTriangle::Tril, row, col, d1, d2),
+{
+    let need = |c: int| gp_cnt(MatrixTriangle::Tril, row, col, d1, d2, c);
+    let nv = d1 + d2;
+    assert(need(col) == 1 && need(col + 1) == 1 && need(col + 2) == 1);
+    lemma_sx_room(K0, need, col, col + 1); lemma_sx_room(K0, need, col + 1, col + 2); lemma_sx_room(K0, need, col, col + 2);
+    // cursors of the cone's own columns after the q and r rows: advanced by one
+    assert forall|c: int| row <= c < row + nv implies need(c) == 2 && #[trigger] K2.colptr@[c] == K0.colptr@[c] + 1 && K3.colptr@[c] == K0.colptr@[c] + 2 by {
+        if c < row + d1 { assert(K1.colptr@[c] == K0.colptr@[c] + 1); assert(K2.colptr@[c] == K1.colptr@[c]); }
+        else { assert(K1.colptr@[c] == K0.colptr@[c]); assert(K2.colptr@[c] == K1.colptr@[c] + 1); }
+    }
+    assert forall|k: int| 0 <= k < 3 implies #[trigger] K3.colptr@[col + k] == K0.colptr@[col + k] by { assert(K1.colptr@[col + k] == K0.colptr@[col + k]); assert(K2.colptr@[col + k] == K1.colptr@[col + k]); }
+    // a first-round slot (cursor of a cone column) is not touched by the later calls
+    assert forall|j: int| row <= j < row + nv implies untouched(K2.colptr@, row, row + nv, #[trigger] K0.colptr@[j] as int) && untouched(K3.colptr@, col, col + 3, K0.colptr@[j] as int)
+        && untouched(K3.colptr@, col, col + 3, K0.colptr@[j] + 1) by {
+        let sl = K0.colptr@[j] as int;
+        assert(need(j) == 2);
+        lemma_sx_room(K0, need, j, col); lemma_sx_room(K0, need, j, col + 1); lemma_sx_room(K0, need, j, col + 2);
+        assert forall|c: int| row <= c < row + nv implies #[trigger] K2.colptr@[c] != sl by {
+            assert(K2.colptr@[c] == K0.colptr@[c] + 1); assert(need(c) == 2);
+            if c < j { lemma_sx_room(K0, need, c, j); } else if c > j { lemma_sx_room(K0, need, j, c); }
+        }
+        assert(K3.colptr@[col + 0] == K0.colptr@[col + 0] && K3.colptr@[col + 1] == K0.colptr@[col + 1] && K3.colptr@[col + 2] == K0.colptr@[col + 2]);
+    }
+    assert forall|i: int| 0 <= i < d1 implies #[trigger] q[i] == K0.colptr@[row + i] && K.rowval@[K0.colptr@[row + i] as int] == col && K.nzval@[K0.colptr@[row + i] as int] == f_zero() by {
+        let sl = K0.colptr@[row + i] as int;
+        assert(K1.rowval@[sl] == col && K1.nzval@[sl] == f_zero());
+        assert(untouched(K1.colptr@, row + d1, row + d1 + d2, sl)) by {
+            assert forall|c: int| row + d1 <= c < row + d1 + d2 implies #[trigger] K1.colptr@[c] != sl by { assert(K1.colptr@[c] == K0.colptr@[c]); assert(need(row + i) == 2); lemma_sx_room(K0, need, row + i, c); }
+        }
+        assert(K2.rowval@[sl] == K1.rowval@[sl] && K2.nzval@[sl] == K1.nzval@[sl]);
+        assert(untouched(K2.colptr@, row, row + nv, sl));
+        assert(K3.rowval@[sl] == K2.rowval@[sl] && K3.nzval@[sl] == K2.nzval@[sl]);
+        assert(untouched(K3.colptr@, col, col + 3, sl));
+    }
+    assert forall|i: int| 0 <= i < d2 implies #[trigger] r[i] == K0.colptr@[row + d1 + i] && K.rowval@[K0.colptr@[row + d1 + i] as int] == col + 1 && K.nzval@[K0.colptr@[row + d1 + i] as int] == f_zero() by {
+        let sl = K0.colptr@[row + d1 + i] as int;
+        assert(K1.colptr@[row + d1 + i] == K0.colptr@[row + d1 + i]);
+        assert(K2.rowval@[sl] == col + 1 && K2.nzval@[sl] == f_zero());
+        assert(untouched(K2.colptr@, row, row + nv, sl));
+        assert(K3.rowval@[sl] == K2.rowval@[sl] && K3.nzval@[sl] == K2.nzval@[sl]);
+        assert(untouched(K3.colptr@, col, col + 3, sl));
+    }
+    assert forall|i: int| 0 <= i < d1 + d2 implies #[trigger] p[i] == K0.colptr@[row + i] + 1 && K.rowval@[K0.colptr@[row + i] + 1] == col + 2 && K.nzval@[K0.colptr@[row + i] + 1] == f_zero() by {
+        assert(K2.colptr@[row + i] == K0.colptr@[row + i] + 1);
+        assert(K3.rowval@[K0.colptr@[row + i] + 1] == col + 2 && K3.nzval@[K0.colptr@[row + i] + 1] == f_zero());
+        assert(untouched(K3.colptr@, col, col + 3, K0.colptr@[row + i] + 1));
+    }
+    assert forall|k: int| 0 <= k < 3 implies #[trigger] D[k] == K0.colptr@[col + k] && K.rowval@[K0.colptr@[col + k] as int] == col + k && K.nzval@[K0.colptr@[col + k] as int] == f_zero() by {
+        assert(K3.colptr@[col + k] == K0.colptr@[col + k]);
+    }
+    assert forall|c: int| 0 <= c < K0.colptr@.len() implies #[trigger] K.colptr@[c] == K0.colptr@[c] + gp_cnt(MatrixTriangle::Tril, row, col, d1, d2, c) by {
+        if row <= c < row + nv { assert(K3.colptr@[c] == K0.colptr@[c] + 2); }
+        else if col <= c < col + 3 { assert(K3.colptr@[col + (c - col)] == K0.colptr@[col + (c - col)]); }
+        else { assert(K1.colptr@[c] == K0.colptr@[c] && K2.colptr@[c] == K1.colptr@[c] && K3.colptr@[c] == K2.colptr@[c]); }
+    }
+    assert forall|s: int| 0 <= s < K0.rowval@.len() && #[trigger] sx_free(K0, need, s) implies K.rowval@[s] == K0.rowval@[s] && K.nzval@[s] == K0.nzval@[s] by {
+        lemma_sx_free(K0, need, s);
+        assert(!(K0.colptr@[col] <= s < K0.colptr@[col] + need(col)));
+        assert(!(K0.colptr@[col + 1] <= s < K0.colptr@[col + 1] + need(col + 1)));
+        assert(!(K0.colptr@[col + 2] <= s < K0.colptr@[col + 2] + need(col + 2)));
+        assert(K3.colptr@[col + 0] == K0.colptr@[col + 0] && K3.colptr@[col + 1] == K0.colptr@[col + 1] && K3.colptr@[col + 2] == K0.colptr@[col + 2]);
+        assert(untouched(K3.colptr@, col, col + 3, s));
+        assert(untouched(K0.colptr@, row, row + d1, s)) by {
+            assert forall|c: int| row <= c < row + d1 implies #[trigger] K0.colptr@[c] != s by { assert(need(c) == 2); }
+        }
+        assert(untouched(K1.colptr@, row + d1, row + d1 + d2, s)) by {
+            assert forall|c: int| row + d1 <= c < row + d1 + d2 implies #[trigger] K1.colptr@[c] != s by { assert(need(c) == 2); assert(K1.colptr@[c] == K0.colptr@[c]); assert(!(K0.colptr@[c] <= s < K0.colptr@[c] + need(c))); }
+        }
+        assert(untouched(K2.colptr@, row, row + nv, s)) by {
+            assert forall|c: int| row <= c < row + nv implies #[trigger] K2.colptr@[c] != s by { assert(need(c) == 2); assert(K2.colptr@[c] == K0.colptr@[c] + 1); assert(!(K0.colptr@[c] <= s < K0.colptr@[c] + need(c))); }
+        }
+    }
+}
+impl GenPowerCone<F> {
+    // ASSUMED (macro-generated accessors impl_map_recover!)
+    #[verifier::external_body]
+    pub fn recover_map<'a>(&self, map: &'a SparseExpansionMap) -> (r: &'a GenPowExpansionMap)
+        ensures map matches SparseExpansionMap::GenPowExpansionMap(m) && *r == m,
+    { unimplemented!() }
+    #[verifier::external_body]
+    pub fn recover_map_mut<'a>(&self, map: &'a mut SparseExpansionMap) -> (r: &'a mut GenPowExpansionMap)
+        ensures
+            *old(map) matches SparseExpansionMap::GenPowExpansionMap(m) && *r == m,
+            *final(map) matches SparseExpansionMap::GenPowExpansionMap(m) && *final(r) == m,
+    { unimplemented!() }
+//@fn file=src/solver/core/cones/genpowcone.rs in="impl<T> GenPowerCone<T>" name=dim1 rules=R1,R2 ret=r
+//@contract
+    ensures r == self.alpha@.len()
+//@end
+//@fn file=src/solver/core/cones/genpowcone.rs in="impl<T> GenPowerCone<T>" name=dim2 rules=R1,R2 ret=r
+//@contract
+    ensures r == self.dim2
+//@end
+//@fn file=src/solver/core/cones/genpowcone.rs in="impl<T> GenPowerCone<T>" name=dim rules=R1,R2 ret=r
+//@contract
+    requires self.alpha@.len() + self.dim2 <= usize::MAX,
+    ensures r == self.alpha@.len() + self.dim2
+//@end
+//@fn file=src/solver/core/cones/genpowcone.rs in="Cone<T> for GenPowerCone<T>" name=numel rules=R1,R2 ret=r
+//@contract
+    requires self.alpha@.len() + self.dim2 <= usize::MAX,
+    ensures r == self.alpha@.len() + self.dim2
+//@end
+//@fn file=src/solver/core/kktsolvers/direct/quasidef/datamaps.rs in="SparseExpansionConeTrait<T> for &'_ GenPowerCone<T>" name=csc_colcount_sparsecone rules=R1
+//@contract
+    requires
+        self.alpha@.len() + self.dim2 <= usize::MAX, row + self.alpha@.len() + self.dim2 <= usize::MAX,
+        col + 3 <= old(K).colptr@.len(), shape == MatrixTriangle::Tril ==> row + self.alpha@.len() + self.dim2 <= old(K).colptr@.len(),
+        forall|c: int| 0 <= c < old(K).colptr@.len() ==> #[trigger] old(K).colptr@[c] + gp_cnt(shape, row as int, col as int, self.alpha@.len() as int, self.dim2 as int, c) <= usize::MAX,
+    ensures
+        // C11: column counts of the auxiliary rows / columns of the sparse expansion, in either triangle
+        final(K).colptr@.len() == old(K).colptr@.len(),
+        forall|c: int| 0 <= c < old(K).colptr@.len() ==> #[trigger] final(K).colptr@[c] == old(K).colptr@[c] + gp_cnt(shape, row as int, col as int, self.alpha@.len() as int, self.dim2 as int, c),
+        final(K).rowval@ == old(K).rowval@, final(K).nzval@ == old(K).nzval@, final(K).m == old(K).m, final(K).n == old(K).n,
+//@pre
+        let ghost d1 = self.alpha@.len() as int;
+        let ghost d2 = self.dim2 as int;
+        proof {
+            assert(K.colptr@.len() == K.colptr.len());
+            assert forall|c: int| 0 <= c < K.colptr@.len() implies #[trigger] K.colptr@[c] + gp_cnt(shape, row as int, col as int, d1, d2, c) <= usize::MAX by { }
+            assert(K.colptr@[col as int] + gp_cnt(shape, row as int, col as int, d1, d2, col as int) <= usize::MAX);
+            assert(K.colptr@[col + 1] + gp_cnt(shape, row as int, col as int, d1, d2, col + 1) <= usize::MAX);
+            assert(K.colptr@[col + 2] + gp_cnt(shape, row as int, col as int, d1, d2, col + 2) <= usize::MAX);
+            assert forall|c: int| row <= c < row + d1 + d2 && shape == MatrixTriangle::Tril implies #[trigger] K.colptr@[c] + 2 <= usize::MAX by {
+                assert(K.colptr@[c] + gp_cnt(shape, row as int, col as int, d1, d2, c) <= usize::MAX); }
+        }
+//@end
+//@fn file=src/solver/core/kktsolvers/direct/quasidef/datamaps.rs in="SparseExpansionConeTrait<T> for &'_ GenPowerCone<T>" name=csc_fill_sparsecone rules=R1
+//@contract
+    requires
+        *old(map) matches SparseExpansionMap::GenPowExpansionMap(m) ==> m.q@.len() == self.alpha@.len() && m.r@.len() == self.dim2 && m.p@.len() == self.alpha@.len() + self.dim2,
+        old(K).arrays_ok(), col + 3 <= old(K).colptr@.len(), row + self.alpha@.len() + self.dim2 <= usize::MAX,
+        shape == MatrixTriangle::Tril ==> row + self.alpha@.len() + self.dim2 <= col,
+        // cursor discipline (what the counting pass hands over): every column has room for the entries it receives
+        sx_room(*old(K), |c: int| gp_cnt(shape, row as int, col as int, self.alpha@.len() as int, self.dim2 as int, c)),
+    ensures
+        final(K).arrays_ok(), final(K).rowval@.len() == old(K).rowval@.len(), final(K).colptr@.len() == old(K).colptr@.len(),
+        final(K).m == old(K).m, final(K).n == old(K).n,
+        *final(map) matches SparseExpansionMap::GenPowExpansionMap(m)
+            && gp_fill_post(*old(K), *final(K), m.q@, m.r@, m.p@, m.D@, shape, row as int, col as int, self.alpha@.len() as int, self.dim2 as int),
+//@pre
+        let ghost K0 = *K;
+        let ghost d1 = self.alpha@.len() as int;
+        let ghost d2 = self.dim2 as int;
+        let ghost need = |c: int| gp_cnt(shape, row as int, col as int, self.alpha@.len() as int, self.dim2 as int, c);
+        let ghost mut K1 = *K;
+        let ghost mut K2 = *K;
+        let ghost mut K3 = *K;
+        let ghost mut K4 = *K;
+        proof {
+            assert(K.colptr@.len() == K.colptr.len()); assert(K.rowval@.len() == K.rowval.len());
+            assert(need(col as int) >= 1 && need(col + 1) >= 1 && need(col + 2) >= 1);
+            lemma_sx_room(K0, need, col as int, col + 1); lemma_sx_room(K0, need, col + 1, col + 2); lemma_sx_room(K0, need, col as int, col + 2);
+        }
+//@after "K.fill_colvec(&mut map.q, row, col);"
+                proof { K1 = *K; assert(colvec_filled(K0, K1, map.q@, row as int, col as int)); }
+//@after "K.fill_colvec(&mut map.r, row + dim1, col + 1);"
+                proof { K2 = *K; assert(colvec_filled(K1, K2, map.r@, row + d1, col + 1)); }
+//@after "K.fill_colvec(&mut map.p, row, col + 2);"
+                proof { K3 = *K; assert(colvec_filled(K2, K3, map.p@, row as int, col + 2)); }
+//@before "K.fill_rowvec(&mut map.q, col, row);"
+                proof {
+                    assert forall|c: int| row <= c < row + d1 + d2 implies #[trigger] K0.colptr@[c] + 2 <= K0.rowval@.len() by { assert(need(c) == 2); }
+                    assert forall|c1: int, c2: int| row <= c1 < c2 < row + d1 + d2 implies #[trigger] K0.colptr@[c1] + 2 <= #[trigger] K0.colptr@[c2] by { assert(need(c1) == 2); lemma_sx_room(K0, need, c1, c2); }
+                }
+//@after "K.fill_rowvec(&mut map.q, col, row);"
+                proof {
+                    K1 = *K; assert(rowvec_filled(K0, K1, map.q@, col as int, row as int));
+                    assert forall|c: int| row + d1 <= c < row + d1 + d2 implies #[trigger] K1.colptr@[c] == K0.colptr@[c] by { }
+                }
+//@after "K.fill_rowvec(&mut map.r, col + 1, row + dim1);"
+                proof {
+                    K2 = *K; assert(rowvec_filled(K1, K2, map.r@, col + 1, row + d1));
+                    assert forall|c: int| row <= c < row + d1 + d2 implies #[trigger] K2.colptr@[c] == K0.colptr@[c] + 1 by {
+                        if c < row + d1 { assert(K1.colptr@[c] == K0.colptr@[c] + 1); assert(K2.colptr@[c] == K1.colptr@[c]); }
+                        else { assert(K1.colptr@[c] == K0.colptr@[c]); assert(K2.colptr@[c] == K1.colptr@[c] + 1); }
+                    }
+                }
+//@after "K.fill_rowvec(&mut map.p, col + 2, row);"
+                proof { K3 = *K; assert(rowvec_filled(K2, K3, map.p@, col + 2, row as int)); }
+//@before "let pdim = map.pdim();"
+        proof {
+            K4 = *K;
+            if shape == MatrixTriangle::Tril {
+                assert forall|k: int| 0 <= k < 3 implies #[trigger] K4.colptr@[col + k] == K0.colptr@[col + k] by { assert(K1.colptr@[col + k] == K0.colptr@[col + k]); assert(K2.colptr@[col + k] == K1.colptr@[col + k]); }
+                assert(K4.colptr@[col + 0] == K0.colptr@[col + 0] && K4.colptr@[col + 1] == K0.colptr@[col + 1] && K4.colptr@[col + 2] == K0.colptr@[col + 2]);
+            } else {
+                assert(K4.colptr@[col as int] == K0.colptr@[col as int] + d1 && K4.colptr@[col + 1] == K0.colptr@[col + 1] + d2 && K4.colptr@[col + 2] == K0.colptr@[col + 2] + d1 + d2);
+            }
+        }
+//@post
+        proof {
+            let m = map->GenPowExpansionMap_0;
+            assert(diag_filled(K4, *K, m.D@, col as int, 3));
+            if shape == MatrixTriangle::Triu { lemma_gp_fill_triu(K0, K1, K2, K3, *K, m.q@, m.r@, m.p@, m.D@, row as int, col as int, d1, d2); }
+            else { lemma_gp_fill_tril(K0, K1, K2, K3, *K, m.q@, m.r@, m.p@, m.D@, row as int, col as int, d1, d2); }
+        }
+//@end
+}
 
 // ---- KKT assembly, upper-triangle layout: the three fills that place P, its missing diagonal entries and A' ----
 pub open spec fn pcnt(P: CscMatrix<F>, c: int) -> int { P.colptr@[c + 1] - P.colptr@[c] }
